@@ -187,9 +187,24 @@ def gen_tasks(tier, seed):
             Xs.append(("subset3", [list(e) for e in rng.sample(es, 3)]))
         for xn, X in Xs:
             tasks.append({"kind": "cyc", "name": name, "edges": es, "X": X, "xn": xn})
+    # larger hand-made shapes: two slots whose sequences have a gap that re-enters at the head of an edge of the other slot,
+    # trusted set a proper subset (the slot loop carries reachability caches from one slot to the next)
+    for name, es, X in GAP_SHAPES:
+        tasks.append({"kind": "cyc", "name": name, "edges": es, "X": [list(e) for e in X], "xn": "hand"})
+        tasks.append({"kind": "cyc", "name": name, "edges": es, "X": [list(e) for e in es], "xn": "all"})
     for i, t in enumerate(tasks):
         t["tid"] = i
     return tasks
+
+
+GAP_SHAPES = [
+    ("gap_two_slots", [("a", "x"), ("s1", "b"), ("s2", "b"), ("b", "p"), ("p", "x"), ("p", "y"), ("y", "q"), ("q", "y"), ("x", "c"), ("y", "c"), ("c", "d")],
+     [("a", "x"), ("b", "p"), ("c", "d")]),
+    ("gap_two_slots_mirror", [("x", "a"), ("b", "s1"), ("b", "s2"), ("p", "b"), ("x", "p"), ("y", "p"), ("q", "y"), ("y", "q"), ("c", "x"), ("c", "y"), ("d", "c")],
+     [("x", "a"), ("p", "b"), ("d", "c")]),
+    ("gap_through_cycle", [("s", "a"), ("a", "b"), ("b", "a"), ("b", "c"), ("r", "c"), ("c", "d"), ("d", "e"), ("e", "d"), ("e", "t"), ("d", "u")],
+     [("s", "a"), ("c", "d"), ("e", "t")]),
+]
 
 
 def _viol(res, sig, summary, task, extra=None):
